@@ -50,6 +50,8 @@ WITNESSES = {
 
 WITNESSES.update(H.WITNESSES)
 
+BOUND_FEATURE_SETS = [("bound_var",), ("bound_var", "funcs"), ("bound_var", "continue", "tuple"), ("bound_var", "branch_first"),
+                      ("bound_var", "float", "funcs", "div"), ("bound_var", "pass")]
 HELPER_FEATURES = [("tuple",), ("tuple", "float"), ("tuple", "div"), ("tuple", "continue"), ("tuple", "pass")]
 LABELS = ("int", "float", "bool", "String")
 
@@ -294,6 +296,46 @@ LAYOUT_CORPUS = [
                                     ("write", "w0")]),
              ("write", "(i0 + w0)")],
      "main": [("if", [("(i0 > 1000)", [("write", '"huge"'), ("assign", "i0", "0"), ("sleep", "5")])], []), ("assign", "i0", "(i0 + 1)"), ("write", "i0")]},
+]
+
+
+# for-range loops whose bound is a BARE variable with a value known when the line is parsed and another one when the loop
+# runs (CPython reads the variable each time the for statement is executed): re-assigned between passes of the main loop
+# (plain and augmented), inside an enclosing while loop of the setup part, in an if branch before the loop, from a sensor read,
+# shrinking, through a copy, as a parameter of a helper (also spelled like a module-level constant); the same variable bare
+# as a sleep argument and in a condition.  Run first of the 'bound_var' group, every tier, plain and under layout noise.
+BOUND_CORPUS = [
+    {"pre": [("assign", "m0", "1")],
+     "main": [("for", "k0", "m0", [("write", "k0")]), ("write", '"--"'), ("sleep", "(10 * m0)"), ("assign", "m0", "(m0 + 1)")], "loops": 4},
+    {"pre": [("assign", "m0", "2"), ("assign", "w0", "0"),
+             ("while", "(w0 < 3)", [("assign", "i0", "0"), ("for", "k0", "m0", [("aug", "i0", "+", "(k0 + 1)")]),
+                                    ("write", 'f"{w0}:{m0}:{i0}"'), ("assign", "m0", "(m0 + 2)"), ("aug", "w0", "+", "1")])], "main": None},
+    {"pre": [("assign", "i0", "7"), ("assign", "m0", "2"), ("if", [("(i0 > 5)", [("assign", "m0", "4")])], []),
+             ("for", "k0", "m0", [("write", "(k0 * i0)")]), ("write", '"done"')], "main": None},
+    {"pre": [("assign", "m0", "3"), ("read", "m0", "digital", "4"), ("for", "k0", "m0", [("write", "(k0 + 50)")]),
+             ("assign", "m1", "2"), ("read", "m1", "analog", '"A1"'), ("assign", "m1", "(m1 % 4)")],
+     "main": [("for", "k0", "m1", [("write", "(k0 * 10 + m1)")]), ("read", "m1", "analog", '"A1"'), ("assign", "m1", "(m1 % 3)"),
+              ("if", [("(m1 >= 0)", [("sleep", "m1")])], [])],
+     "input": "ar 14 300\nar 15 7 2 5 1 700\ndr 4 1 0\n", "loops": 3},
+    {"pre": [("assign", "m0", "4"), ("assign", "m1", "1")],
+     "main": [("for", "k0", "m0", [("write", "(m0 - k0)"), ("for", "k1", "m1", [("write", "(k0 * 10 + k1)")])]),
+              ("aug", "m0", "-", "1"), ("aug", "m1", "+", "1"), ("if", [("(m0 < 2)", [("assign", "m0", "3")])], []),
+              ("if", [("(m0 >= 0)", [("aw", "5", "m0")])], [])], "loops": 4},
+    {"pre": [("assign", "m0", "2"), ("assign", "m1", "0"), ("for", "k0", "m1", [("write", '"never"')]), ("assign", "m1", "m0"),
+             ("assign", "m0", "(m0 - 3)"), ("for", "k0", "m1", [("write", "(k0 + m0)")]), ("for", "k1", "m0", [("write", '"negative"')]), ("write", "m0")],
+     "main": [("for", "k0", "3", [("assign", "m1", "((m1 + 1) % 4)"), ("for", "k1", "m1", [("write", "(k0 * 100 + k1)")])])], "loops": 2},
+    {"funcs": [("fn0", ["m0", "p1"], [("for", "k0", "m0", [("write", "(k0 * 10 + p1)")]), ("assign", "m0", "(m0 + 1)"), ("for", "k1", "m0", [("write", '"x"')])], "(m0 + p1)"),
+               ("fn1", ["p0"], [("assign", "i9", "0"), ("for", "k0", "p0", [("aug", "i9", "+", "k0")])], "i9")],
+     "head": [("assign", "m0", "2")],
+     "pre": [("assign", "i0", "0"), ("write", "fn0(3, 5)"), ("write", "fn0(0, 6)"), ("write", "fn1(m0)"), ("write", "fn1(4)")],
+     "main": [("assign", "i0", "(i0 + 1)"), ("write", "fn0(i0, 7)"), ("write", "fn1(i0 + m0)"), ("write", "m0")], "loops": 3},
+    # the limit of a while loop and both sides of a swap are such variables
+    {"pre": [("assign", "m0", "1"), ("assign", "m1", "3"), ("assign", "w0", "0")],
+     "main": [("assign", "w0", "0"), ("while", "(w0 < m0)", [("write", "(w0 * 10 + m0)"), ("assign", "w0", "(w0 + 1)")]),
+              ("swap", "m0", "m1"), ("assign", "m1", "(m1 + 1)"), ("for", "k0", "m1", [("write", '"y"')])], "loops": 3},
+    # range() with two / three arguments, the variable among them: rejected (ValueError), never translated into something else
+    {"pre": [("assign", "m0", "3"), ("for", "k0", "1, m0", [("write", "k0")])], "main": None},
+    {"pre": [("assign", "m0", "3")], "main": [("for", "k0", "0, m0, 2", [("write", "k0")]), ("assign", "m0", "(m0 + 1)")], "loops": 2},
 ]
 
 
@@ -821,6 +863,30 @@ def run_unit(ctx: C.Ctx):
         progs.append(p)
         feats.append(f)
         noisy.append((i // len(FEATURE_SETS)) % 2 == 1)          # every other round of the feature sets
+    # 'bound_var' group (appended; its own stream derived from the seed, so the programs above are what they were):
+    # the boundary programs, then seeded programs over BOUND_FEATURE_SETS
+    brng = random.Random(f"C01-bound-var:{ctx.seed}")
+    n_old = len(progs)
+    bstats = collections.Counter()
+    for noise_on in (False, True):
+        for cp in BOUND_CORPUS:
+            progs.append({"funcs": list(cp.get("funcs", [])), "head": list(cp.get("head", [])), "pre": list(cp["pre"]), "main": cp["main"],
+                          "input": cp.get("input", "ar 14 300\nar 15 2\ndr 4 1\n"), "_loops": cp.get("loops", 0)})
+            feats.append(("corpus", "bound_var") + (("layout-noise",) if noise_on else ()))
+            noisy.append(noise_on)
+    for i in range(240 if thorough else 36):
+        f = BOUND_FEATURE_SETS[i % len(BOUND_FEATURE_SETS)]
+        for _ in range(6):          # at least one for-range loop with a bare variable bound
+            g = progen.Gen(brng, f)
+            p = g.program(with_main=brng.random() < 0.85)
+            if any(k_.startswith("for-b") for k_ in p["n_bound"]):
+                break
+        bstats.update(p["n_bound"])
+        p["input"] = gen_inputs(brng)
+        p["_loops"] = brng.choice([1, 2, 3, 3, 4]) if p["main"] is not None else 0
+        progs.append(p)
+        feats.append(f)
+        noisy.append(i % 3 == 2)
     srcs = []
     for p, nz_on, f_ in zip(progs, noisy, feats):
         if nz_on:
@@ -828,7 +894,7 @@ def run_unit(ctx: C.Ctx):
             # and headers: CPython ignores them all, so the oracle is unchanged; the text is kept for the IR correspondence
             # every other noisy program additionally with the `wide` classes: per-block indentation widths (or tabs only),
             # optional blanks between tokens, CRLF, no final newline, non-ASCII comment text
-            nz = progen.Noise(nrng, p_line=0.45 if "corpus" in f_ else 0.3, wide=nstats["noisy-programs"] % 2 == 1,
+            nz = progen.Noise(brng if "bound_var" in f_ else nrng, p_line=0.45 if "corpus" in f_ else 0.3, wide=nstats["noisy-programs"] % 2 == 1,
                               p_space=0.5 if "corpus" in f_ else 0.25)
             p["_src"] = progen.render(p, noise=nz)
             if not progen.same_python(p["_src"], progen.render(p)):
@@ -837,7 +903,7 @@ def run_unit(ctx: C.Ctx):
             nstats["noisy-programs"] += 1
             nstats["noisy-programs-with-dedented-comment-inside-block"] += 1 if nz.stats.get("dedented-comment-inside-block") else 0
         srcs.append(src_of(p))
-    loops = [(rng.choice([0, 1, 2, 3]) if p["main"] is not None else 0) for p in progs]
+    loops = [(rng.choice([0, 1, 2, 3]) if p["main"] is not None else 0) for p in progs[:n_old]] + [p["_loops"] for p in progs[n_old:]]
     res = run_pair(srcs, [p["input"] for p in progs], loops)
     stats = collections.Counter()
     outside = []
@@ -916,6 +982,7 @@ def run_unit(ctx: C.Ctx):
                     "loop_passes": dict(collections.Counter(loops)), "with_main_loop": sum(1 for p in progs if p["main"] is not None),
                     "constant_inputs": sum(1 for p in progs if len(const_inputs(p["input"])) == 3),
                     "continue_by_innermost_loop": dict(conts), "programs_with_continue_by_status": dict(cont_progs),
+                    "bare_variable_bounds": dict(bstats), "bound_var_programs_by_status": dict(collections.Counter(r_["status"] for r_ in res[n_old:])),
                     "layout_noise": dict(nstats), "list_layout_noise": dict(lnstats),
                     "fixed_witnesses_replayed_first": n_fixed, "helper_functions": hu}
     ctx.coverage.setdefault("distribution", {})["C01_stmt"] = distribution
